@@ -105,7 +105,16 @@ def shard(S, p):
                 data = E.encode(cs, container, None, layout="single")
                 r = E.cli_create(data, [("sel", None)], extra=["-vv"], via="stdin" if len(s) % 2 else "path")
                 S.count("C_runs")
-                wit = {"gt": s, "container": container, "role": role, "level": "C", "argv": r.argv, "input_b64": E.b64(data), "run": r.brief()}
+                from .. import replay as R
+                if role == "unselected":
+                    rp = R.exact(r, b"#SHAPE=<3>\n0 1 0\n")
+                elif c[0] == "geno":
+                    rp = R.exact(r, ("#SHAPE=<3>\n%s\n" % " ".join("1" if j == c[1] else "0" for j in range(3))).encode())
+                elif c[0] == "ploidy":
+                    rp = R.reject(r, "ctg7:4242")
+                else:
+                    rp = R.exact(r, b"#SHAPE=<3>\n0 0 0\n")
+                wit = {"gt": s, "container": container, "role": role, "level": "C", "argv": r.argv, "input_b64": E.b64(data), "run": r.brief(), "replay": rp}
                 tag = "C %s GT %s %s" % (container, s, role)
                 sk_sites, summary, sk_samples = E.parse_stderr(r.err)
                 if r.panicked or r.signal:
@@ -155,7 +164,15 @@ def shard(S, p):
                     S.count("C_runs")
                     S.count("C_pair_runs")
                     tag = "C %s GTs %s (%s) with %s%s" % (container, s, order, other, " projected to 3" if proj else "")
+                    from .. import replay as R
                     wit = {"gt": s, "container": container, "level": "C", "argv": r.argv, "input_b64": E.b64(data), "run": r.brief()}
+                    if c[0] == "ploidy":
+                        wit["replay"] = R.reject(r, "ctg7:4242")
+                    elif proj is None:
+                        e5 = [0] * 5
+                        if c[0] == "geno" and co[0] == "geno":
+                            e5[c[1] + co[1]] = 1
+                        wit["replay"] = R.exact(r, ("#SHAPE=<5>\n%s\n" % " ".join(map(str, e5))).encode())
                     if r.panicked or r.signal:
                         S.viol("C08:panic:%s:%s" % ("bcf" if "bcf" in container else "vcf", panic_sig(r.err) if r.err.strip() else "signal"),
                                "[%s] panicked/killed: rc %s %r" % (tag, r.rc, r.err[:300]), wit)
